@@ -274,7 +274,7 @@ type job struct {
 var ProxyLayer func(r *ev.Run)
 
 func Run(r *ev.Run) {
-	r.Rule = "cases = (keystore format × client with 0-3 rotations × entry point × plaintext length around header sizes × content class × framing kind), seeded sample (quick) or full product over 3 streams (thorough); a case is non-trivial when protect succeeded with a changed value AND at least one reveal returned the original; distinct = (keystore, entry point, reveal point, length class, content class, framing kind) tuples that completed such a round trip"
+	r.Rule = "cases = (keystore format × client with 0-3 rotations × entry point × plaintext length around header sizes × content class × framing kind), seeded sample (quick) or full product over 3 streams (thorough); a case is non-trivial when protect succeeded with a changed value AND at least one reveal returned the original; distinct = (keystore, entry point, reveal point, length class, content class, framing kind) tuples that completed such a round trip; length sweep layer: every plaintext length 0..1100 (thorough 0..3300) plus the lengths at which the second byte of a length field of the produced value equals a tag byte (0x22, 0x25, 0xF0, 0xF1; computed from two calibration lengths per entry point) × every entry point × every reveal point incl. the inline scanners and detectors called directly × {alone, text, partial tags, random bytes} around the value, then the protected value through the pass-through; the byte values each length field took are read from the produced values and guarded (all 256 low-byte values, all tag values of the second byte, per stored form and field); distinct there = (entry point, reveal point, framing, stored form, which length-field bytes equal a tag byte)"
 	r.Assumptions = []string{
 		"crypto library replaced by the pure-Go gothemis stand-in offering the Secure Cell Seal / Secure Message / EC key contract; AEAD strength is the stand-in's",
 		"entry points driven in-process: acrastruct/acrablock library calls, crypto.RegistryHandler, all TranslatorService encrypt/decrypt operations, and the column pipeline built like proxyFactory.New (encryptor chain; hmac → container detector → hmac subscribers); wire-level transport is C04's",
@@ -481,6 +481,7 @@ func Run(r *ev.Run) {
 		}
 	}
 	r.RequireAtLeast("long_history_values_revealed:older-of-two-keys-with-one-id", 1)
+	lengthSweep(r, envs, clients, eps)
 	if ProxyLayer != nil {
 		ProxyLayer(r)
 	}
